@@ -148,22 +148,28 @@ def _multisets(kinds):
 
 # =================================================================================================== stubs
 class _Comp(MeasurementType):
-    """Stub measurement component y = rep(c + h.(x - xref)) with a real IsAngle flag.
+    """Stub measurement component y = rep(c + h.d + q (g.d)^2), d = x - xref, with a real IsAngle flag.
 
     rep = identity for a linear component; for an angular component the value is wrapped into the documented range
-    of its flag ([0, 2pi) or [-pi, pi)) with plain floor arithmetic and then shifted by ``kpred`` full turns.
+    of its flag ([0, 2pi) or [-pi, pi)) with plain floor arithmetic and then shifted by ``kpred`` full turns.  The
+    quadratic term makes the sigma-point image asymmetric about the centre point, so that the weighted (circular) mean
+    depends on the weights (with a purely linear map every symmetric weighting gives the centre value).  At the centre
+    sigma point d = 0 exactly, hence y = rep(c) exactly.
     """
 
-    def __init__(self, label, kind, hvec, c, xref, kpred=0):
+    def __init__(self, label, kind, hvec, c, xref, kpred=0, gvec=None, quad=0.0):
         self.LABEL = label
         self.kind = kind
         self.hvec = np.asarray(hvec, dtype=float)
+        self.gvec = self.hvec if gvec is None else np.asarray(gvec, dtype=float)
+        self.quad = float(quad)
         self.c = float(c)
         self.xref = np.asarray(xref, dtype=float)
         self.kpred = kpred
 
     def value(self, state):
-        v = float(np.dot(self.hvec, np.asarray(state, dtype=float)[: self.hvec.size] - self.xref))
+        d = np.asarray(state, dtype=float)[: self.hvec.size] - self.xref
+        v = float(np.dot(self.hvec, d)) + self.quad * float(np.dot(self.gvec, d)) ** 2
         return _rep(self.kind, self.c + v) + TWOPI * self.kpred
 
     def calculate(self, sen_eci_state, tgt_eci_state, utc_date):  # noqa: ARG002
@@ -222,6 +228,9 @@ _H4 = [[1.0, 0.5, 0.25, -0.5], [-0.75, 1.0, 0.5, 0.25], [0.5, -1.0, 0.25, 0.75],
 _H2 = [[1.0, 0.5], [-0.75, 1.0], [0.5, -1.0], [0.25, 0.75], [1.0, 1.0], [-0.5, 0.25], [0.75, -0.25], [-1.0, 0.5]]
 
 
+QUAD = {LIN: 0.25, A2: 0.5, AN: -0.5}  # curvature of the stub components (per unit^2 of g.d)
+
+
 def _hvec(n, slot, comp):
     table = _H4 if n == 4 else _H2
     return table[(3 * slot + comp) % len(table)]
@@ -243,15 +252,15 @@ def _r_matrix(kinds_of_obs, slot, ang_scale=1.0):
 JD0 = 2459304.1666666665
 
 
-def _build_stack(n, kind_names, phase, placement_mode, turn_pattern=None, kpred_pattern=None, half_turn=False, ang_scale=1.0):
+def _build_stack(n, kind_names, phase, placement_mode, turn_pattern=None, kpred_pattern=None, half_turn=None, ang_scale=1.0):
     """Observations (identity order) for a multiset of observation kinds.
 
     phase = (placement phase, innovation phase).  placement_mode: "seam" = angular component g gets
     PLACEMENTS[(g + placement phase) % 6] and innovation NU_ANG[(g + innovation phase) % 6] (the two phases run through
     all 36 combinations over the multiset index); "off" = every angular component off-seam (the reference
     representation).  turn_pattern / kpred_pattern: full turns added to the measured /
-    predicted angular component g (cycled).  half_turn: the measured angle of angular component 0 is half a turn
-    away from its prediction.
+    predicted angular component g (cycled).  half_turn: predicted mean of angular component 0 (from the reference);
+    its measured angle is put exactly half a turn away from it.
     Returns (observations, info) where info lists per stacked component kind / placement / c / nu / z.
     """
     xref = _xref(n)
@@ -266,7 +275,7 @@ def _build_stack(n, kind_names, phase, placement_mode, turn_pattern=None, kpred_
                 c = [0.0, 3.0, -7.5][(slot + j) % 3]
                 nu = NU_LIN[(g_lin + nu_phase) % len(NU_LIN)]
                 g_lin += 1
-                comp = _Comp(label, kind, _hvec(n, slot, j), c, xref)
+                comp = _Comp(label, kind, _hvec(n, slot, j), c, xref, gvec=_hvec(n, slot + 1, j + 1), quad=QUAD[kind])
                 z = c + nu
                 place, kz, kp = "lin", 0, 0
             else:
@@ -279,13 +288,14 @@ def _build_stack(n, kind_names, phase, placement_mode, turn_pattern=None, kpred_
                 else:
                     place, c = "off", OFF_SEAM[kind]
                 nu = NU_ANG[(g_ang + nu_phase) % len(NU_ANG)]
-                if half_turn and g_ang == 0:
-                    nu = PI
+                z_forced = None
+                if half_turn is not None and g_ang == 0:
+                    nu, z_forced = PI, _rep(kind, half_turn + PI)
                 kz = turn_pattern[g_ang % len(turn_pattern)] if turn_pattern else 0
                 kp = kpred_pattern[g_ang % len(kpred_pattern)] if kpred_pattern else 0
                 g_ang += 1
-                comp = _Comp(label, kind, _hvec(n, slot, j), c, xref, kpred=kp)
-                z = _rep(kind, c + nu) + TWOPI * kz
+                comp = _Comp(label, kind, _hvec(n, slot, j), c, xref, kpred=kp, gvec=_hvec(n, slot + 1, j + 1), quad=QUAD[kind])
+                z = (_rep(kind, c + nu) if z_forced is None else z_forced) + TWOPI * kz
             comps.append(comp)
             zvals[label] = z
             info.append({"kind": kind, "place": place, "c": c, "nu": nu, "z": z, "kz": kz, "kp": kp, "slot": slot})
@@ -356,9 +366,10 @@ def _tol(n, alpha, kappa, exp, base=1e-11):
         tol_mean = max(base, 50 * eps * W * ratio) * amp         (measured deviations are <= 0.1 of it).
     (b) sigma-point residuals are differences of values of size ratio*sigma that are gamma*sigma apart: relative error
     eps * ratio / gamma in every covariance; a mean error e shifts all residuals and changes the covariances by
-    e * (b0 + e) where b0 is the centre sigma point's residual (unscented bias, zero for the linear stubs):
-        tol_cov = max(base, 50 * eps * ratio / gamma + tm * (b0 + tm)),  tm = 50 * eps * W * ratio.
-    For alpha = 1e-3 tol_mean is 1e-6 .. 2e-4 sigma and tol_cov 1e-9 .. 3e-7; for alpha >= 0.5 both are 1e-11 .. 1e-9.
+    (1 - alpha^2 + beta + 1) * e * (b0 + e) <= 4 e (b0 + e), where b0 is the centre sigma point's residual (the
+    unscented bias of a curved measurement function):
+        tol_cov = max(base, 50 * eps * ratio / gamma + 4 * tm * (b0 + tm)),  tm = 50 * eps * W * ratio.
+    For alpha = 1e-3 tol_mean is 1e-6 .. 3e-4 sigma and tol_cov 1e-9 .. 2e-6; for alpha >= 0.5 both are 1e-11 .. 1e-9.
     The defects these must expose move the posterior by >= 1e-2 sigma (a missing/extra wrap is a multiple of 2*pi
     >= 60 sigma_y, a linear mean across the seam is 2*pi*w_i, a wrong flag changes an innovation by >= 4e-3 rad = 0.04
     sigma_y): >= 2 orders of margin in the worst configuration, >= 7 orders for alpha >= 0.5 (every lattice point is run
@@ -372,17 +383,17 @@ def _tol(n, alpha, kappa, exp, base=1e-11):
     amp = max(1.0, float(np.max(np.abs(exp["innovation"]) / sy)))
     tm = 50.0 * EPS * float(np.sum(np.abs(wm))) * ratio
     b0 = max(float(np.max(np.abs(exp["dx0"]) / sig0)), float(np.max(np.abs(exp["dy0"]) / sy)))
-    return max(base, tm) * amp, max(base, 50.0 * EPS * ratio / gamma + tm * (b0 + tm))
+    return max(base, tm) * amp, max(base, 50.0 * EPS * ratio / gamma + 4.0 * tm * (b0 + tm))
 
 
 def _tol_perm(exp):
     """Reordering the stack leaves every per-component mean bitwise unchanged; only the solve with the (permuted)
     innovation covariance and the sums over the stacked index differ: eps * m * cond(S normalised to unit diagonal),
-    times amp as above, with a factor 100 of margin (floor 1e-12)."""
+    times amp as above, with a factor 1000 of margin (floor 1e-11; measured <= 6e-13)."""
     sy = np.sqrt(np.diag(exp["innov_cvr"]))
     corr = exp["innov_cvr"] / np.outer(sy, sy)
     amp = max(1.0, float(np.max(np.abs(exp["innovation"]) / sy)))
-    return max(1e-12, 100.0 * EPS * corr.shape[0] * float(np.linalg.cond(corr))) * amp
+    return max(1e-11, 1000.0 * EPS * corr.shape[0] * float(np.linalg.cond(corr))) * amp
 
 
 # =================================================================================================== items
@@ -414,29 +425,30 @@ def _chunks_by_cost(multisets, target, max_orders=24):
 
 
 def items(tier, seed):
+    """Longest items first (better packing over the worker pool); merge order is item order, hence deterministic."""
     out = []
-    base = _base_angles(seed)
-    for chunk in fw.chunked(range(len(base)), 6):
-        out.append(("wrap", tier, seed, list(chunk)))
-    for chunk in fw.chunked(range(len(base)), 3):
-        out.append(("residual", tier, seed, list(chunk)))
-    for which in range(4):
-        out.append(("angmean", tier, seed, which))
     mss = _multisets(_kinds(tier))
-    out.append(("flags", tier, seed))
+    for si in sorted(range(len(REAL_STACKS)), key=lambda i: -len(REAL_STACKS[i])):
+        for ai, _ in enumerate(_real_alphas(tier)):
+            for pi_, (pname, _) in enumerate(_real_placements(tier)):
+                if tier == "quick" and len(REAL_STACKS[si]) == 4 and pname not in REAL_4STACK_PLACEMENTS_Q:
+                    continue  # announced lattice: quick runs the 24 orders of the 4-stack for two seam placements
+                out.append(("real", tier, seed, ai, pi_, si))
+    for ph in _phases(tier)[:2]:
+        for chunk in reversed(_chunks_by_cost(mss, 60 if tier == "quick" else 130, max_orders=8 if tier == "quick" else 24)):
+            out.append(("gpf", tier, seed, chunk, ph))
     for ph in _phases(tier):
         for ci, _ in enumerate(_ukf_cfgs(tier)):
             for chunk in _chunks_by_cost(mss, 110):
                 out.append(("ukf", tier, seed, ci, chunk, ph))
-    for ai, _ in enumerate(_real_alphas(tier)):
-        for pi_, (pname, _) in enumerate(_real_placements(tier)):
-            for si, stack in enumerate(REAL_STACKS):
-                if tier == "quick" and len(stack) == 4 and pname not in REAL_4STACK_PLACEMENTS_Q:
-                    continue  # announced lattice: quick runs the 24 orders of the 4-stack for two seam placements
-                out.append(("real", tier, seed, ai, pi_, si))
-    for ph in _phases(tier)[:2]:
-        for chunk in _chunks_by_cost(mss, 60 if tier == "quick" else 130, max_orders=8 if tier == "quick" else 24):
-            out.append(("gpf", tier, seed, chunk, ph))
+    out.append(("flags", tier, seed))
+    base = _base_angles(seed)
+    for which in range(4):
+        out.append(("angmean", tier, seed, which))
+    for chunk in fw.chunked(range(len(base)), 3):
+        out.append(("residual", tier, seed, list(chunk)))
+    for chunk in fw.chunked(range(len(base)), 6):
+        out.append(("wrap", tier, seed, list(chunk)))
     return out
 
 
@@ -454,7 +466,7 @@ def bounds(tier, seed):
         "turn_patterns": TURN_PATTERNS_T if tier == "thorough" else TURN_PATTERNS_Q,
         "real_alphas": _real_alphas(tier),
         "real_azimuth_placements": [p[0] for p in _real_placements(tier)],
-        "real_stacks": [[s for s, _ in st] for st in REAL_STACKS],
+        "real_stacks": [[f"{site}:{m}" for site, m in st] for st in REAL_STACKS],
         "real_4stack_placements": list(REAL_4STACK_PLACEMENTS_Q) if tier == "quick" else "all",
         "gpf_particles": GPF_POP,
         "gpf_orders_of_4_stacks": [list(o) for o in GPF_ORDERS_4_Q] if tier == "quick" else "all 24",
@@ -603,6 +615,8 @@ def _angmean_sets(tier, seed):
         "sym5": [0.0, 1.0, 0.5, -1.0, -0.5],
         "asym4": [0.0, 1.0, -0.3, 0.8],
         "sym9": [0.0, 1.0, 0.5, -0.25, 0.75, -1.0, -0.5, 0.25, -0.75],
+        "asym5": [0.0, 1.0, 0.4, -0.7, -0.2],
+        "asym9": [0.1, 1.0, 0.5, -0.25, 0.75, -0.8, -0.3, 0.3, -0.6],
     }
     if tier == "thorough":
         spreads += [1e-6, 0.15]
@@ -838,13 +852,15 @@ def _ukf_multiset(res, tier, seed, ci, mi, ph):
                 _same_posterior(res, "ukf/turns_predicted", "C16/ukf/turns_predicted", cpub, f_p, f_s, (tol_p, tolc + tol_p - tol), sig0, True, it)
                 _innovation_range(res, "ukf/turns_predicted", cpub, f_p, kinds, True, it)
             # ---------------- measurement half a turn from the prediction: innovation stays in (-pi, pi]
-            obs_h, _ = _build_stack(n, names, phase, "seam", half_turn=True)
+            first_ang = next(j for j, k in enumerate(kinds) if k != LIN)
+            obs_h, _ = _build_stack(n, names, phase, "seam", half_turn=float(exp_s["mean_y"][first_ang]))
             f_h = _run_ukf(n, alpha, kappa, obs_h)
             cpub = {**pub, "variant": "half_turn"}
             _innovation_range(res, "ukf/half_turn", cpub, f_h, kinds, True, it)
             exp_h = reference(obs_h)
-            first_ang = next(j for j, k in enumerate(kinds) if k != LIN)
-            okh = abs(abs(f_h.innovation[first_ang]) - PI) <= 1e-6 and ref.circ_dist(float(f_h.innovation[first_ang]), float(exp_h["innovation"][first_ang])) <= 1e-6
+            sy_h = float(np.sqrt(exp_h["innov_cvr"][first_ang, first_ang]))
+            okh = abs(abs(f_h.innovation[first_ang]) - PI) <= tol * sy_h + 4 * EPS * TWOPI and \
+                ref.circ_dist(float(f_h.innovation[first_ang]), float(exp_h["innovation"][first_ang])) <= tol * sy_h + 4 * EPS * TWOPI  # fmt: skip
             res.case("ukf/half_turn/value", cpub, okh, nontrivial=True, signature="C16/ukf/half_turn/value",
                      observed=f_h.innovation, expected=exp_h["innovation"], item=it)  # fmt: skip
             res.either_way += 1  # sign of a +-pi innovation is a rounding coin flip: posterior not compared
